@@ -996,6 +996,19 @@ class Driver:
                                  expected=",".join(tkind(p["type"]) for p in f0["params"]),
                                  ran=",".join(tkind(p["type"]) for p in ran[0]["params"]), trace=[l for _, _, l in ev][:6])
                         rans = None
+                if rans is not None and len(ran) == 1 and ran[0] in fns:
+                    rsl = self.bind(ran[0], args, kw)
+                    cross = [s_ for s_, p_ in zip(rsl or [], ran[0]["params"]) if s_ is not None and p_["type"]["k"] == "bool"
+                             and s_.c != "bool"]
+                    if rsl and cross and all(s_ is None or self.acc(s_, p_["type"]) == "yes" or p_["type"]["k"] == "bool" or
+                                             (s_.c == "int" and p_["type"]["k"] == "float")
+                                             for s_, p_ in zip(rsl, ran[0]["params"])):
+                        # an overload tried earlier took an argument of another category for its bool parameter (truth
+                        # testing accepts anything) although another overload matches the argument's category exactly
+                        self.bad("wrong-overload:arg-taken-as-bool-by-earlier-overload", call=callsig,
+                                 expected=",".join(tkind(p["type"]) for p in f0["params"]),
+                                 ran=",".join(tkind(p["type"]) for p in ran[0]["params"]), trace=[l for _, _, l in ev][:6])
+                        rans = None
                 if rans is None:
                     pass
                 else:
